@@ -256,17 +256,15 @@ def hybrid_rush_larsen(
         linearized = sympy.Symbol(linearized_name)
         eqs.append(printer(linearized, expr_diff, use_variable_prefix=True))
 
-        need_zero_div_check = not fraction_numerator_is_nonzero(expr_diff)
-        if not need_zero_div_check:
-            logger.debug(f"{linearized_name} cannot be zero. Skipping zero division check")
-
+        # Always fall back to forward Euler when |linearized| <= delta. Even if
+        # the linearization cannot be exactly zero (see fraction_numerator_is_nonzero)
+        # it can be arbitrarily small, and the delta tolerance must be honoured
         RL_term = x.symbol / linearized * (sympy.exp(linearized * dt) - 1)
-        if need_zero_div_check:
-            RL_term = sympytools.Conditional(
-                abs(linearized) > delta,
-                RL_term,
-                dt * x.symbol,
-            )
+        RL_term = sympytools.Conditional(
+            abs(linearized) > delta,
+            RL_term,
+            dt * x.symbol,
+        )
         eqs.append(
             printer(
                 values[i],
@@ -348,17 +346,15 @@ def generalized_rush_larsen(
         linearized = sympy.Symbol(linearized_name)
         eqs.append(printer(linearized, expr_diff, use_variable_prefix=True))
 
-        need_zero_div_check = not fraction_numerator_is_nonzero(expr_diff)
-        if not need_zero_div_check:
-            logger.debug(f"{linearized_name} cannot be zero. Skipping zero division check")
-
+        # Always fall back to forward Euler when |linearized| <= delta. Even if
+        # the linearization cannot be exactly zero (see fraction_numerator_is_nonzero)
+        # it can be arbitrarily small, and the delta tolerance must be honoured
         RL_term = x.symbol / linearized * (sympy.exp(linearized * dt) - 1)
-        if need_zero_div_check:
-            RL_term = sympytools.Conditional(
-                abs(linearized) > delta,
-                RL_term,
-                dt * x.symbol,
-            )
+        RL_term = sympytools.Conditional(
+            abs(linearized) > delta,
+            RL_term,
+            dt * x.symbol,
+        )
         eqs.append(
             printer(
                 values[i],
